@@ -283,6 +283,47 @@ def execute_belt(case: dict) -> dict:
     return out
 
 
+def execute_far(case: dict) -> dict:
+    """pixel2index for coordinates far outside the map along a slow axis (so far that products with the strides leave
+    the 32-bit range): still outside, still -1."""
+    import jax.numpy as jnp
+    import numpy as np
+    from furax.landscapes import StokesLandscape
+
+    out = {'id': case['id'], 'exc': None, 'wrong': []}
+    try:
+        land = _landscape_class()(tuple(reversed(case['shape'])), 'I')       # shape is given first coordinate first
+        pts = np.asarray(case['pts'], dtype=np.float64)
+        res = np.asarray(land.pixel2index(*[jnp.asarray(pts[:, k]) for k in range(pts.shape[1])]))
+        out['wrong'] = [[case['pts'][i], int(res[i])] for i in range(len(res)) if int(res[i]) != -1][:8]
+        out['n'] = len(res)
+    except Exception as exc:  # noqa: BLE001
+        out['exc'] = f'{type(exc).__name__}: {exc}'[:300]
+    return out
+
+
+def far_cases() -> list[dict]:
+    out = []
+    for shape in ((1024, 5), (1000, 7), (256, 4, 3), (65536, 2)):        # first (fastest) coordinate first: large strides
+        pts = []
+        n = len(shape)
+        for axis in range(1, n):
+            stride = 1
+            for d in shape[:axis]:
+                stride *= d
+            for k in (2 ** 31 // stride, 2 ** 32 // stride, 2 ** 32 // stride + 1, 2 ** 33 // stride + 3, 4194304, 4294968, 858994):
+                for sign in (1, -1):
+                    for x0 in (0, 1, shape[0] - 1):
+                        pt = [x0] + [0] * (n - 1)
+                        pt[axis] = sign * k
+                        if abs(pt[axis]) >= shape[axis] and abs(pt[axis]) < 2 ** 24:      # exactly representable in float32
+                            pts.append(pt)
+        c = {'shape': list(shape), 'pts': pts}
+        c['id'] = fx.case_id(c)
+        out.append(c)
+    return out
+
+
 def belt_cases(seed: int) -> list[dict]:
     rng = random.Random(seed + 17)
     out = []
@@ -684,6 +725,21 @@ def run(tier: str, seed: int) -> int:
             else:
                 n_ok += o['n']
             belt_stats[f"{c['nside']}:{mode}"] = {'points': o.get('n'), 'wrong': o.get('wrong')}
+    fars = far_cases()
+    far_stats = {}
+    for x64 in (True, False):
+        for c, o in zip(fars, fx.replay('c17', 'execute_far', fars, x64=x64, procs=2, chunksize=1)):
+            mode = 'x64' if x64 else 'x32'
+            key = 'x'.join(map(str, c['shape']))
+            if o['exc'] is not None:
+                verd.report(f"pixel2index:far:raised:{key}:{mode}", 'pixel2index raises on in-scope input', dict(c, far=True, x64=x64), o)
+            elif o['wrong']:
+                verd.report(f"pixel2index:far:{key}:{mode}", 'any coordinate outside the map in any dimension yields -1',
+                            dict(c, far=True, x64=x64), o)
+            else:
+                n_ok += o['n']
+            n_eval += o.get('n', 0)
+            far_stats[f'{key}:{mode}'] = {'points': o.get('n'), 'wrong': len(o['wrong'])}
     rc = verd.finish()
 
     nontrivial = (fx.nontrivial_count(pix, lambda c: c['tie'] or c['acc'] != [-1])
@@ -699,6 +755,7 @@ def run(tier: str, seed: int) -> int:
         'evaluations': n_eval,
         'distinct_nontrivial': nontrivial,
         'belt_pixel_centres_large_nside': belt_stats,
+        'far_outside_points': far_stats,
         'rule': 'cases = terminal states of the three MC_Landscape machines (pix: map shape x quarter-grid point; '
                 'cov: hit sequence; hpx: nside x pixel x representation x offsets), each replayed in float64 and '
                 'float32 mode (hpx float32: exact margin >= 1/16 only); evaluations = points/sequences x modes; '
@@ -739,6 +796,13 @@ def replay_file(path: str) -> int:
     doc = json.loads(open(path).read())
     case = doc['case'] if 'case' in doc else doc
     x64 = bool(case.get('x64', True))
+    if case.get('far'):
+        o = fx.replay('c17', 'execute_far', [case], x64=x64, procs=1)[0]
+        print(json.dumps(o, indent=1))
+        if o['exc'] is not None or o['wrong']:
+            print(f'VIOLATION property={PROP} replay={path}')
+            return 1
+        return 0
     if case.get('belt'):
         o = fx.replay('c17', 'execute_belt', [case], x64=x64, procs=1)[0]
         print(json.dumps(o, indent=1))
